@@ -22,7 +22,8 @@ Definition parse_char_t (s : sx) (ch : Z) : res sx * Z :=
   | Repeat =>
     if is_digit ch then (parse_char hsl s ch, 1)
     else match nums s with
-         | i :: _ => let r := Cost.repeat_data_t (Z.to_nat i) s ch 0 in (do s' <- fst r; Ok (set_st s' Read), 1 + snd r)
+         | i :: _ => if MAX_SIXEL_DIMENSION <? i then (Err 3, 1)          (* the fix: a count beyond the limit is refused before the loop *)
+                     else let r := Cost.repeat_data_t (Z.to_nat i) s ch 0 in (do s' <- fst r; Ok (set_st s' Read), 1 + snd r)
          | [] => (Err 4, 1)
          end
   | _ => (parse_char hsl s ch, 1)
@@ -39,7 +40,7 @@ Fixpoint parse_chars_t (s : sx) (cs : list Z) (k : Z) : res sx * Z :=
 (* the repeat count executed by this character (0 when it is not the character that ends a `!n` group) *)
 Definition rep_of (s : sx) (ch : Z) : Z :=
   match st s with
-  | Repeat => if is_digit ch then 0 else match nums s with i :: _ => Z.max 0 i | [] => 0 end
+  | Repeat => if is_digit ch then 0 else match nums s with i :: _ => if MAX_SIXEL_DIMENSION <? i then 0 else Z.max 0 i | [] => 0 end
   | _ => 0
   end.
 Fixpoint rep_sum (s : sx) (cs : list Z) : Z :=
